@@ -94,6 +94,7 @@ type Sim struct {
 	OnFault    func(site string, t *Task) error
 	OnFS       func(kind, path string, b []byte, t *Task)
 	WrapFile   func(path string, f verifhook.File, t *Task) verifhook.File
+	OnEvict    func(db int, key string, memUsed int64, limit uint64)
 	// stats
 	Stats Stats
 	// schedule hash: FNV over (site) at steps with >=2 choices
@@ -160,6 +161,11 @@ func (s *Sim) install() {
 		Fault:    s.hookFault,
 		FSEvent:  s.hookFS,
 		WrapFile: s.hookWrap,
+		Evict: func(db int, key string, memUsed int64, limit uint64) {
+			if s.OnEvict != nil {
+				s.OnEvict(db, key, memUsed, limit)
+			}
+		},
 	})
 }
 
